@@ -225,6 +225,10 @@ class Ref:
                 if name == "default":
                     return x
                 if name == "sum":
+                    if any(isinstance(i, float) for i in x):
+                        # builtin sum() compensates float rounding (3.12+), the
+                        # async filter variant adds naively: not this property
+                        raise Discard("float sum")
                     return _guard(sum(x))
                 if name == "max":
                     return max(x)
